@@ -643,8 +643,15 @@ func (po *PinOptions) Equals(po2 *PinOptions) bool {
 	}
 
 	for k, v := range po.Metadata {
-		v2 := po2.Metadata[k]
-		if k != "" && v != v2 {
+		v2, ok := po2.Metadata[k]
+		if k != "" && (!ok || v != v2) {
+			return false
+		}
+	}
+
+	// keys which are only present in po2 make the options different too
+	for k := range po2.Metadata {
+		if _, ok := po.Metadata[k]; k != "" && !ok {
 			return false
 		}
 	}
